@@ -57,6 +57,11 @@ def handle (op : String) (j : Json) : Json :=
     | .error e => jObj [("err", errName e)]
     | .ok coll => jObj [("ok", jArr (coll.map jEntry)),
                         ("flagged", jArr ((List.range w.groups.length).map (fun g => jNms (flaggedOf coll g))))]
+  | "grouping" =>
+    let fs : List TFeat := (arrF j "feats").map (fun f => match asArr f with
+      | [n, o, d] => { name := nm n, opt := asNat o, dtype := optNat d }
+      | _ => { name := [], opt := 0, dtype := none })
+    jArr ((groupByType fs).map (fun b => jArr (b.2.map (fun f => jArr [jNm f.name, toJson f.opt, jOptNat f.dtype]))))
   | "tables" => withOrder j fun o =>
       jRes (fun ts => jArr (ts.map jNms)) (results (fwOf (strF j "fw")) o ((arrF j "steps").map step))
   | _ => jErr s!"C03: unknown op {op}"
